@@ -460,3 +460,19 @@ Definition win_spec (E : env) (i : win_info) (e : bytes) : option venv :=
               | None => None
               end
   end.
+
+(* ==== the documented STACK WIN table, written independently: the records that have a valid
+        address range, looked up by containment (parser.rs: "PDB files contain lots of overlapping
+        unwind info, so we have to filter some of it out" — the filtering only concerns overlaps) ==== *)
+Definition keep (l : list win_info) : list (C08.Model.range * win_info) :=
+  flat_map (fun i => match win_range i with Some r => [(r, i)] | None => [] end) l.
+Definition table_spec_lookup (l : list win_info) (x : Z) : option win_info :=
+  match filter (fun e => C08.Model.contains (fst e) x) (keep l) with
+  | e :: _ => Some (snd e)
+  | [] => None
+  end.
+Fixpoint disjoint_ranges (kl : list (C08.Model.range * win_info)) : Prop :=
+  match kl with
+  | [] => True
+  | e :: t => (forall e', In e' t -> C08.Model.intersects (fst e) (fst e') = false) /\ disjoint_ranges t
+  end.
